@@ -564,7 +564,7 @@ Lemma columns_best_inv dc col cs sels i0 x0 best r :
   exists pre t post, cs = pre ++ t :: post /\ nthz sels (zlen pre) = Some true /\
     r = (i0 + zlen pre, x0 + xoff dc pre, x0 + xoff dc pre + cw t, snd t).
 Proof.
-  revert sels i0 x0 best. induction cs as [|[[w h] c] cs IH]; intros sels i0 x0 best H.
+  revert sels i0 x0 best r. induction cs as [|[[w h] c] cs IH]; intros sels i0 x0 best r H.
   - cbn [columns_best] in H. left. exact H.
   - destruct sels as [|b sels]; [cbn [columns_best] in H; left; exact H|]. cbn [columns_best] in H.
     assert (Here : forall r0, r0 = (i0, x0, x0 + w, c) ->
@@ -593,4 +593,134 @@ Proof.
         destruct (col <? x0 + w); [right; inversion H; apply Here; reflexivity|].
         destruct (Later _ _ H) as [Hl|Hr]; [|right; exact Hr]. right. inversion Hl. apply Here. reflexivity.
     + destruct (Later _ _ H) as [Hl|Hr]; [left; exact Hl|right; exact Hr].
+Qed.
+
+Section ColumnsTarget.
+  Variable items : col_items.
+  Variable fp dc mw : Z.
+
+  (* the column chosen by move_cursor_to_coords is a placed child *)
+  Lemma columns_best_placed s col i x e csz :
+    columns_fits items fp dc mw s = true ->
+    columns_best (columns_sizes items fp dc mw s) (map (fun it : copt * bool * cinfo => i_sel (snd it)) items) 0 0 dc col None
+      = Some (i, x, e, csz) ->
+    0 <= i < zlen items /\ i_sel (nth_info (map snd items) i) = true /\
+    In (Placed i x 0 csz (fp =? i) false) (columns_place items fp dc mw s) /\
+    (forall q, In q (columns_place items fp dc mw s) -> p_idx q = i -> q = Placed i x 0 csz (fp =? i) false).
+  Proof.
+    intros Hf Hb. destruct (columns_fits_inv items fp dc mw s Hf) as [Hfp [Hdc [Hlen [Hw [Hh Hsum]]]]].
+    destruct (columns_best_inv _ _ _ _ _ _ _ _ Hb) as [Hn|[pre [t [post [E [Hsel Hr]]]]]]; [discriminate|].
+    inversion Hr; subst i x e csz. clear Hr.
+    pose proof Hw as Hw'. rewrite E in Hw'. apply Forall_app in Hw' as [Hpre Hrest].
+    pose proof (Forall_inv Hrest) as Ht. cbn beta in Ht.
+    rewrite E, zlen_app, zlen_cons in Hlen. pose proof (zlen_nonneg pre). pose proof (zlen_nonneg post).
+    replace (0 + zlen pre) with (zlen pre) by lia. replace (0 + xoff dc pre) with (xoff dc pre) by lia.
+    split; [lia|]. split; [|split].
+    - rewrite nthz_map in Hsel. destruct (nthz items (zlen pre)) as [[[o b] ci]|] eqn:Ei; [|discriminate].
+      cbn [option_map snd] in Hsel. rewrite (nth_info_map_snd items _ _ _ Ei). congruence.
+    - unfold columns_place. rewrite E.
+      pose proof (columns_place_from_in fp dc pre t post 0 0 _ eq_refl Hpre Ht) as G.
+      replace (0 + zlen pre) with (zlen pre) in G by lia. replace (0 + xoff dc pre) with (xoff dc pre) in G by lia. exact G.
+    - intros q Hq Hqi. unfold columns_place in Hq.
+      destruct (columns_place_from_inv fp dc _ 0 0 _ q eq_refl Hw Hq) as [pre2 [t2 [post2 [E2 ->]]]].
+      cbn [p_idx] in Hqi. rewrite E in E2.
+      destruct (app_mid_eq pre pre2 t t2 post post2 E2) as [<- [<- <-]].
+      { unfold zlen in *. lia. }
+      f_equal; lia.
+  Qed.
+End ColumnsTarget.
+
+Lemma move_ok_columns items fp dc mw : Forall (fun it => MoveOK (snd it)) items -> MoveOK (Columns items fp dc mw).
+Proof.
+  intros IH s col row Hf Hm. unfold move_cursor, info, fits, cursor_coords, canvas_rows in *.
+  rewrite view_eq in *. cbn [interp v_move v_info v_fits] in *. unfold interp_move.
+  destruct (interp_fits_inv _ _ _ _ Hf) as [Hpos [Hn Hkids]].
+  unfold wnode in *. cbn [kidviews kids_with node_of] in *.
+  set (kids := map (fun it : copt * bool * widget => view (snd it)) items) in *.
+  set (its := combine (map fst items) (map v_info kids)) in *.
+  assert (Elen : length (map fst items) = length (map v_info kids)) by (unfold kids; rewrite !map_length; reflexivity).
+  assert (Eki : map snd its = map v_info kids) by (apply map_snd_combine; exact Elen).
+  assert (Ezl : zlen its = zlen items).
+  { unfold its. rewrite (zlen_combine_same _ _ Elen). apply zlen_map. }
+  assert (Ezk : zlen kids = zlen items) by (unfold kids; apply zlen_map).
+  cbn [n_move n_fits n_place n_info] in *.
+  destruct (columns_move its fp dc mw s col row) as [| |i|i cs c' r' nf] eqn:E; cbn [m_ok m_w m_asked].
+  - discriminate.
+  - exfalso. unfold columns_move in E. destruct (columns_best _ _ _ _ _ _ _) as [[[[? ?] ?] ?]|]; [|discriminate].
+    destruct (i_hasmove _) in E; discriminate.
+  - (* the chosen column has no move_cursor_to_coords: only the focus moves (here: stays) *)
+    intros _ Hsame. cbn [set_focus cols_same] in Hsame |- *. apply andb_true_iff in Hsame as [Hfp _].
+    assert (i = fp) by lia. subst i.
+    rewrite view_eq. cbn [interp v_info v_fits]. unfold wnode. cbn [kidviews kids_with node_of].
+    fold kids. fold its. cbn [n_info].
+    split; [reflexivity|]. split; [exact Hf|intro H; congruence].
+  - unfold columns_move in E.
+    destruct (columns_best (columns_sizes its fp dc mw s) (map (fun it : copt * bool * cinfo => i_sel (snd it)) its) 0 0 dc col None)
+      as [[[[i0 x0] e0] cs0]|] eqn:Ebest; [|discriminate].
+    destruct (i_hasmove (nth_info (map snd its) i0)) eqn:Ehm; [|discriminate].
+    inversion E; subst i0 cs0 c' r' nf. clear E.
+    destruct (columns_best_placed its fp dc mw s col i x0 e0 cs Hn Ebest) as [Hi [Esel [Hp Hfun]]].
+    destruct (nthz_some items i) as [[o ci] Hni]; [lia|].
+    assert (Ekid : forall d, nth_view d kids i = view ci) by (intro d; unfold kids; apply (nth_view_kids d items i o ci Hni)).
+    rewrite Ekid.
+    assert (Einfo : nth_info (map snd its) i = v_info (view ci)).
+    { rewrite Eki. rewrite <- (nth_view_info (Columns items fp dc mw)). rewrite Ekid. reflexivity. }
+    rewrite Einfo in Esel, Ehm.
+    assert (Hcf : v_fits (view ci) cs = true).
+    { specialize (Hkids _ Hp). cbn [p_idx p_size] in Hkids. rewrite Ekid in Hkids. exact Hkids. }
+    assert (IHi : MoveOK ci).
+    { rewrite Forall_forall in IH. apply (IH (o, ci)). eapply nthz_In; eauto. }
+    specialize (IHi cs (Z.min (Z.max 0 (col - x0)) (e0 - x0 - 1)) row Hcf Ehm).
+    unfold move_cursor, info, fits, cursor_coords, canvas_rows in IHi. cbv zeta in IHi.
+    destruct (m_ok (v_move (view ci) cs (Z.min (Z.max 0 (col - x0)) (e0 - x0 - 1)) row)) eqn:Eok; cbn [m_ok m_w m_asked]; [|discriminate].
+    intros _ Hsame. cbn [set_child set_focus] in *.
+    set (c2 := m_w (v_move (view ci) cs (Z.min (Z.max 0 (col - x0)) (e0 - x0 - 1)) row)) in *.
+    cbn [cols_same] in Hsame. apply andb_true_iff in Hsame as [Hfp Hsame].
+    assert (i = fp) by lia. subst i.
+    pose proof (cols_same_cols_nth items fp ci c2 o Hsame Hni) as Hsame'.
+    destruct (IHi eq_refl Hsame') as [Hinfo [Hfit' Hasked]]. clear IHi.
+    rewrite view_eq. cbn [interp v_info v_fits v_cursor]. unfold wnode. cbn [kidviews kids_with node_of].
+    rewrite kids_set_nth_w, map_fst_set_nth_w. fold kids.
+    assert (Ekinfo : map v_info (set_nth_v kids fp (view c2)) = map v_info kids).
+    { apply (map_info_set kids fp (view c2) (Columns items fp dc mw)); [lia|]. rewrite Ekid. exact Hinfo. }
+    rewrite Ekinfo. fold its. cbn [n_info].
+    split; [reflexivity|]. split.
+    + eapply (interp_fits_after (Columns items fp dc mw) _ _ _ kids fp (view c2) s Hf).
+      * cbn [n_fits]. exact Hn.
+      * cbn [n_place]. intros q Hq. exists q. auto.
+      * cbn [n_place]. intros q Hq Hqi. rewrite (Hfun q Hq Hqi). cbn [p_size]. exact Hfit'.
+      * lia.
+    + intro Hne. destruct (Hasked Hne) as [_ [Hrow [x Hcur]]].
+      split; [|split].
+      * unfold columns_info. cbn [i_sel]. apply existsb_exists.
+        destruct (nthz_some its fp) as [[o' ci'] Hni']; [lia|]. exists (o', ci'). split; [eapply nthz_In; eauto|].
+        cbn [snd]. rewrite <- (nth_info_map_snd its fp o' ci' Hni'). rewrite Einfo. exact Esel.
+      * pose proof (columns_within its fp dc mw s _ Hn Hpos Hp) as [_ [_ [Hy0 Hy1]]]. cbn [p_y p_idx p_size n_info] in Hy0, Hy1.
+        rewrite Einfo in Hy1. lia.
+      * eapply (interp_cursor_after _ _ (set_nth_v kids fp (view c2)) s fp cs x row row).
+        -- rewrite Ekinfo, <- Eki. apply (columns_cursor_ok its fp dc mw).
+        -- cbn [n_fits]. exact Hn.
+        -- exact Hpos.
+        -- exists (Placed fp x0 0 cs (fp =? fp) false). cbn [n_place p_isfocus p_idx p_size p_y].
+           split; [exact Hp|]. repeat split; lia.
+        -- rewrite nth_view_set_same by lia. exact Hcur.
+        -- rewrite nth_view_set_same by lia. rewrite Hinfo. exact Esel.
+        -- rewrite nth_view_set_same by lia. apply hasmove_hascur. unfold info. rewrite Hinfo. exact Ehm.
+        -- destruct (view_good c2) as [FP _]. destruct (FP cs Hfit') as [H1 _]. exact H1.
+        -- rewrite nth_view_set_same by lia. rewrite Hinfo. lia.
+Qed.
+
+(* ---- every widget ---- *)
+Theorem move_ok_all : forall w, MoveOK w.
+Proof.
+  induction w using widget_ind2.
+  - apply move_ok_leaf.
+  - apply move_ok_pile. exact H.
+  - apply move_ok_columns. exact H.
+  - apply move_ok_padding. exact IHw.
+  - apply move_ok_filler. exact IHw.
+  - apply move_ok_nomove. unfold info. rewrite view_eq. unfold wnode. rewrite frame_node_eq. reflexivity.
+  - apply move_ok_boxadapter. exact IHw.
+  - apply move_ok_attrmap. exact IHw.
+  - apply move_ok_nomove. reflexivity.
 Qed.
